@@ -78,7 +78,7 @@ def r2_r4(ctx, F, hub):
         ctx.missing('C10.R2', 'serve::handle_put')
     fl = flow_of(b)
     cfg = fl.cfg
-    locks = fl.calls_to(LOCK)
+    locks = fl.calls(lambda c: c in hub.lock_runners)
     if len(locks) != 1:
         ctx.missing('C10.R2', 'handle_put -> with_commit_lock (exactly one)')
     lb, lt = locks[0]
